@@ -34,12 +34,17 @@ def run(ctx):
         for order in (2, 3, 4, 5, 6):
             nodes, w = fd[order + 1]
             for nz in sorted({order + 1, order + 2, 9 if quick else 11}):
-                for iota in (0.0, 0.8, "r-dependent"):
+                for iota in (0.0, 0.8, "r-dependent", "integer-radii"):
                     L = fa.Lines(sp, nz, rng)
                     R0 = 2.0
                     rs = np.array([0.5, 1.0, 1.7, 2.5, 3.1])
                     dz = 0.5
                     eta = [rs, L.theta, np.arange(nz, dtype=float) * dz, np.array([0.0, 1.0])]
+                    intr = iota == "integer-radii"          # a radial grid of integer dtype (as some of the repository's own set-ups use)
+                    if intr:
+                        iota = 0.8
+                        rs = np.array([1, 2, 3, 4, 5])
+                        eta = [rs, L.theta, np.arange(nz, dtype=float) * dz, np.array([0.0, 1.0])]
                     rdep = isinstance(iota, str)
                     # the operator evaluates iota(r) per radius (tables per surface): a transform that depends on r, negative inside
                     iof = (lambda r: 0.6 * np.asarray(r, dtype=float) - 0.7) if rdep else (lambda r: np.full_like(np.asarray(r, dtype=float), iota))
